@@ -29,6 +29,15 @@ Routes / oracles (all behavioural, no expected SQL strings):
   the inner SELECT and the bound expressions being executed by SQLite.
   MSSQL's ``translate_select_structure()`` output is likewise re-compiled for
   SQLite and executed (route ``T``).
+* ``compose`` - ``slice(a, b)`` with open ends (``Select.slice``, ``Query.slice``,
+  ``Query[a:]`` / ``[:b]`` / ``[a:b]``, select(T)+joinedload) applied on top of an
+  existing ``limit(l)`` / ``offset(k)`` / both (int, bind, expression), optionally
+  followed by ``limit()`` / ``offset()``.  Expected rows: the documented
+  composition (start is added to the existing OFFSET; a stop replaces an
+  existing LIMIT, an open stop keeps it - _make_slice comments and
+  test/orm/test_query.py SliceTest); where the docstrings leave the interplay
+  with an existing LIMIT open the pure window composition rows[k:][:l][a:b] is
+  accepted too (counted in compose_limit_interplay_left_open_by_docs).
 * ``orm`` - Session.execute / Query with limit, offset, slice, ``[a:b]``,
   ``first()`` and joinedload / selectinload / subqueryload collections: the
   entities are the slice of the parent list and every collection is complete.
@@ -58,6 +67,14 @@ Mutations caught (each one seeded alone in a scratch copy, VIOLATION obtained):
   M9 orm/context.py _should_nest_selectable: offset-only no longer nests the joined eager load  (orm)
   M10 dialects/postgresql/base.py limit_clause: ``LIMIT ALL`` for OFFSET-only replaced by ``LIMIT 0``  (E and P)
   M11 dialects/mssql/base.py _use_top ignores a present OFFSET (TOP n with offset dropped)  (P)
+  composition family (slice on top of an existing limit/offset), sql/util.py _make_slice, one per branch:
+  B1 both ends: ``offset_clause + start`` -> ``start`` (existing int and expression offset dropped)
+  B2 both ends: ``stop - start`` -> ``stop``
+  B3 stop only: existing offset reset to None
+  B4 start only: ``offset_clause + start`` -> ``start``
+  B5 both ends: guard ``start != 0`` -> ``start != 1``
+  B6 start only: existing limit dropped
+  B7 start only: off by one only when the existing offset is a SQL expression
 """
 from __future__ import annotations
 
@@ -112,8 +129,8 @@ META = dict(
     ],
     bounds=dict(
         quick="limit {None,0,1,2,7} x offset {None,0,1,3,7}; forms int/bind/expr in all pairs, litexec/litcol paired with int; "
-        "14 shapes x rows 0..6 on SQLite; 8 dialect variants on 6- and 3-row worlds; fetch(ties,percent) grammar level on 4 shapes x 7 variants; slice(a,b); ORM 8 kinds",
-        thorough="all 5x5 form pairs; slice(a,b) for all a<=b<=7; 8 dialect variants executed on all 7 worlds; fetch with every form",
+        "14 shapes x rows 0..6 on SQLite; 8 dialect variants on 6- and 3-row worlds; fetch(ties,percent) grammar level on 4 shapes x 7 variants; slice(a,b); ORM 8 kinds; composition: 34 pre-existing limit/offset states x 11 slices (open ends) x 3 follow-ups on 6 routes, rows 0/3/6",
+        thorough="all 5x5 form pairs; slice(a,b) for all a<=b<=7; 8 dialect variants executed on all 7 worlds; fetch with every form; composition on all 7 worlds",
     ),
 )
 
@@ -589,6 +606,154 @@ def check_orm(ow, kind, c, n):
     return probs, exp != full
 
 
+
+# ------------------------------------------------------------------ composition: slice on top of an existing window
+
+COMPOSE_ROUTES = ("core_plain", "core_distinct", "core_subq", "orm_select_joined", "query_slice", "query_getitem")
+PRE_L = (None, 2, 4)
+PRE_K = (None, 0, 1, 3)
+PRE_FORMS = ("int", "bind", "expr")
+POSTS = (None, ("limit", 1), ("offset", 2))
+
+
+def compose_cases(tier):
+    """(pre-existing limit l / offset k in one form) x slice(a, b) with open ends x an optional later limit()/offset().
+    simplest first"""
+    pres = [(None, None, "int")]
+    for f in PRE_FORMS:
+        for l in PRE_L:
+            for k in PRE_K:
+                if l is None and k is None:
+                    continue
+                pres.append((l, k, f))
+    slices = [(a, b) for a in (0, 1, 2) for b in (None, a + 1, a + 3)] + [(None, 1), (None, 3)]
+    out = []
+    for pre in pres:
+        for sl in slices:
+            for post in POSTS:
+                out.append(dict(pre=pre, sl=sl, post=post))
+    out.sort(key=lambda c: ((c["pre"][0] is not None) + (c["pre"][1] is not None) + (c["post"] is not None), PRE_FORMS.index(c["pre"][2])))
+    return out
+
+
+def compose_key(c):
+    l, k, f = c["pre"]
+    pre = "".join([".limit(%s:%s)" % (f, l) if l is not None else "", ".offset(%s:%s)" % (f, k) if k is not None else ""]) or "(fresh)"
+    a, b = c["sl"]
+    post = ".%s(%d)" % tuple(c["post"]) if c["post"] else ""
+    return "%s.slice(%s, %s)%s" % (pre, a, b, post)
+
+
+def compose_models(c):
+    """-> (documented, window): two (limit, offset) pairs.
+    documented = what _make_slice's comments and test/orm/test_query.py::SliceTest establish: the slice is relative to the
+    existing OFFSET (start is added to it); a stop replaces an existing LIMIT by stop-start (or stop), an open stop keeps it.
+    window = pure Python composition rows[k:][:l][a:b].  The docstrings leave the interplay with an existing LIMIT open,
+    so both are accepted where they differ (README rule 2); limit()/offset() afterwards set their clause."""
+    l, k, _ = c["pre"]
+    a, b = c["sl"]
+    k0, a0 = k or 0, a or 0
+    off = k0 + a0 if a is not None else k
+    if b is not None:
+        lim = b - a0
+    else:
+        lim = l
+    wl = None
+    if l is not None:
+        wl = max(l - a0, 0)
+    if b is not None:
+        wl = (b - a0) if wl is None else min(wl, b - a0)
+    woff = k0 + a0
+    docd, wind = [lim, off], [wl, woff]
+    if c["post"]:
+        which, v = c["post"]
+        for m in (docd, wind):
+            m[0 if which == "limit" else 1] = v
+    return tuple(docd), tuple(wind)
+
+
+def _pre_apply(obj, c):
+    l, k, f = c["pre"]
+    params = {}
+    if l is not None:
+        v, p = F.lim_value(f, l, "pl")
+        params.update(p)
+        obj = obj.limit(v)
+    if k is not None:
+        v, p = F.lim_value(f, k, "pk")
+        params.update(p)
+        obj = obj.offset(v)
+    return obj, params
+
+
+def _post_apply(obj, c):
+    if c["post"]:
+        which, v = c["post"]
+        obj = obj.limit(v) if which == "limit" else obj.offset(v)
+    return obj
+
+
+def check_compose(world, ow, route, c, n):
+    """-> (problems, nontrivial)"""
+    a, b = c["sl"]
+    (dl, do), (wl, wo) = compose_models(c)
+    if route.startswith("core"):
+        t, u = world.t, world.u
+        if route == "core_plain":
+            base = select(t.c.id, t.c.g).order_by(t.c.id)
+            full = world.full("plain", n)
+        elif route == "core_distinct":
+            base = select(t.c.g).distinct().order_by(t.c.g)
+            full = world.full("distinct", n)
+        else:
+            base = select(t.c.id, t.c.g).order_by(t.c.id)
+            full = world.full("plain", n)
+        stmt, params = _pre_apply(base, c)
+        stmt = _post_apply(stmt.slice(a, b), c)
+        if route == "core_subq":
+            sub = stmt.subquery("sq")
+            stmt = select(sub.c.id, sub.c.g).order_by(sub.c.id)
+        try:
+            got = [tuple(r) for r in world.conns[n].execute(stmt, params)]
+        except sa_exc.SQLAlchemyError as e:
+            world.conns[n].rollback()
+            return [("compose-error", "%s: %s" % (type(e).__name__, str(e).splitlines()[0][:200]))], False
+    else:
+        T = ow.T
+        full = ow.full[n]
+        with Session(ow.engines[n]) as s:
+            try:
+                if route == "orm_select_joined":
+                    stmt, params = _pre_apply(select(T).options(joinedload(T.us)).order_by(T.id), c)
+                    stmt = _post_apply(stmt.slice(a, b), c)
+                    got = _ent(s.execute(stmt, params).unique().scalars().all())
+                else:
+                    q, params = _pre_apply(s.query(T).options(joinedload(T.us)).order_by(T.id), c)
+                    if params:
+                        q = q.params(**params)
+                    if route == "query_slice":
+                        got = _ent(_post_apply(q.slice(a, b), c).all())
+                    else:
+                        if c["post"]:
+                            return [], False  # Query[a:b] executes at once: nothing can follow
+                        got = _ent(q[a:b])
+            except sa_exc.SQLAlchemyError as e:
+                return [("compose-error", "%s: %s" % (type(e).__name__, str(e).splitlines()[0][:200]))], False
+    exp_d = F.model_slice(full, dl, do)
+    exp_w = F.model_slice(full, wl, wo)
+    if got != exp_d and got != exp_w:
+        return [("compose-slice", "%s on %d rows -> %r; documented composition (LIMIT %r OFFSET %r) gives %r, window composition rows[k:][:l][a:b] gives %r"
+                 % (compose_key(c), n, got, dl, do, exp_d, exp_w))], True
+    return [], (exp_d != full and (c["pre"][0] is not None or c["pre"][1] is not None))
+
+
+def compose_sig(route, kind, c):
+    l, k, f = c["pre"]
+    a, b = c["sl"]
+    return "C18 %s %s: slice(%s, %s) on %s limit / %s offset%s" % (
+        route, kind, "start" if a is not None else "None", "stop" if b is not None else "None",
+        _cls(f, l), _cls(f, k), " then .%s()" % c["post"][0] if c["post"] else "")
+
 # ------------------------------------------------------------------ driver
 
 
@@ -606,6 +771,8 @@ def shards(tier, seed):
     for k in ORM_KINDS:
         out.append(["orm", k])
     out.append(["slice"])
+    for r in COMPOSE_ROUTES:
+        out.append(["compose", r])
     return out
 
 
@@ -712,9 +879,36 @@ def run_shard(shard, tier, rec):
                         _emit(rec, "sqlite", shape, c, n, probs)
         finally:
             world.close()
+    elif what == "compose":
+        route = shard[1]
+        world = World()
+        ow = OrmWorld() if not route.startswith("core") else None
+        ns = (6, 3, 0) if tier == "quick" else NROWS
+        try:
+            for c in compose_cases(tier):
+                for n in ns:
+                    probs, nt = check_compose(world, ow, route, c, n)
+                    rec.case(("compose", route, compose_key(c), n), nontrivial=nt)
+                    d, w = compose_models(c)
+                    if d != w:
+                        rec.count("compose_limit_interplay_left_open_by_docs")
+                    if nt and n == 6 and c["pre"] == (4, 1, "expr") and c["sl"] == (1, 4):
+                        rec.sample(dict(route=route, composition=compose_key(c), rows=n, models=dict(documented=list(d), window=list(w))))
+                    for kind, detail in probs:
+                        rec.violation(compose_sig(route, kind, c), detail, dict(route="compose", shape=route, lim=dict(pre=list(c["pre"]), sl=list(c["sl"]), post=list(c["post"]) if c["post"] else None), n=n), kind=(route, kind, c["sl"][0] is None, c["sl"][1] is None, _cls(c["pre"][2], c["pre"][1])))
+        finally:
+            world.close()
 
 
 def replay(case):
+    if case.get("route") == "compose":
+        c = case["lim"]
+        c = dict(pre=tuple(c["pre"]), sl=tuple(c["sl"]), post=tuple(c["post"]) if c["post"] else None)
+        world = World((case["n"],))
+        ow = OrmWorld()
+        probs, _ = check_compose(world, ow, case["shape"], c, case["n"])
+        world.close()
+        return [(compose_sig(case["shape"], kind, c), detail) for kind, detail in probs]
     route, shape, c, n = case["route"], case["shape"], case["lim"], case["n"]
     if c.get("slice") is not None:
         c["slice"] = tuple(c["slice"])
